@@ -123,6 +123,7 @@ QUICK = {
     'n3-two-resources': dict(PL, n=3, fixed_parent=[-1, -1, 1], resources=['r', 'q'], E=10, scenarios=[(0, -1)]),
     'n3-two-resources-flat': dict(PL, n=3, hierarchy=False, resources=['r', 'q'], link_pairs=[(0, 1)], E=10, scenarios=[(0, -1)]),
     'n2-milestones': dict(PL, n=2, milestones=True, scenarios=[(0, -1)]),
+    'n2-fraction-fine': dict(PL, n=2, calendars=['fraction'], grid=8, E=6, links=False, hierarchy=False, scenarios=[(1, -1)]),
     'n3-unbalanced-removal': dict(PL, n=3, balance=[False], removal=True, scenarios=[(0, -1)]),
 }
 
